@@ -83,6 +83,8 @@ def make_harness(kind, shape, nds, named, nops, few_verbs=False):
         if hasattr(res.test, 'evaluate') and kind not in ('failed', 'stats_tests', 'stats_bylabels'):
             again = res.test.evaluate()
             ex.check(full_snapshot(again) == full_snapshot(res), 'evaluating-twice-gives-identical-results')
+        ex.check(info.get('evaluation_left_the_observed_results_unchanged', True),
+                 'evaluating-a-diagnostic-leaves-the-observed-results-unchanged')
         base = full_snapshot(res)
         ex.check(bool(res) == info['expected_verdict'], 'verdict-matches-the-failing-pattern')
         for step in range(nops):
